@@ -422,6 +422,7 @@ pub fn res_main(job: &Value) -> i32 {
         // extensions go through zinoma's own normalisation by way of a generated project file when "yaml" is given
         let mut rec = json!({"e": "res", "id": id, "m": c["m"]});
         if let Some(y) = c["yaml"].as_str() {
+            std::fs::create_dir_all(&proj).unwrap();
             std::fs::write(proj.join("zinoma.yml"), y).unwrap();
             let r = std::panic::catch_unwind(std::panic::AssertUnwindSafe(|| {
                 let targets = load_targets(&root, c["project"].as_str().unwrap_or("."), &sv(&c["requested"]));
@@ -535,45 +536,58 @@ pub fn watch_main(job: &Value) -> i32 {
             got
         };
         let sentinel = canon.join(c["sentinel"].as_str().unwrap());
+        let sentinel_s = sentinel.to_string_lossy().to_string();
         let mut results = vec![];
         let mut nsent = 0u32;
+        let p = probe::get();
         for op in c["ops"].as_array().unwrap() {
             drain(&rx);
-            let p = path_of(&canon, &op["path"]);
+            let from = p.sh.lock().unwrap().events.len();
+            let pth = path_of(&canon, &op["path"]);
             match op["op"].as_str().unwrap() {
                 "create" | "modify" => {
-                    if let Some(parent) = p.parent() {
+                    if let Some(parent) = pth.parent() {
                         let _ = std::fs::create_dir_all(parent);
                     }
-                    let mut f = std::fs::OpenOptions::new().create(true).append(true).open(&p).unwrap();
+                    let mut f = std::fs::OpenOptions::new().create(true).append(true).open(&pth).unwrap();
                     let _ = f.write_all(b"x");
                 }
                 "delete" => {
-                    let _ = std::fs::remove_file(&p);
+                    let _ = std::fs::remove_file(&pth);
                 }
                 "rename" => {
-                    let _ = std::fs::rename(&p, path_of(&canon, &op["to"]));
+                    let _ = std::fs::rename(&pth, path_of(&canon, &op["to"]));
                 }
                 "mkdir" => {
-                    let _ = std::fs::create_dir_all(&p);
+                    let _ = std::fs::create_dir_all(&pth);
                 }
                 _ => {}
             }
-            // did the operation itself trigger? give inotify a moment, bounded by a positive control afterwards
-            std::thread::sleep(Duration::from_millis(c["settle_ms"].as_u64().unwrap_or(40)));
-            let triggered = drain(&rx);
-            // sentinel: a relevant edit that must be detected whatever happened before (watcher still alive)
+            std::thread::sleep(Duration::from_millis(c["settle_ms"].as_u64().unwrap_or(30)));
+            // sentinel: a relevant edit that must be reported whatever happened before; inotify delivers in order, so
+            // every callback for the operation itself precedes the sentinel's
             nsent += 1;
             std::fs::write(&sentinel, format!("s{}", nsent)).unwrap();
             let mut alive = false;
-            for _ in 0..100 {
+            let mut upto = from;
+            for _ in 0..200 {
                 std::thread::sleep(Duration::from_millis(10));
-                if drain(&rx) {
+                let sh = p.sh.lock().unwrap();
+                if let Some(k) = sh.events[from..].iter().position(|e| {
+                    e.ev == "watch_event" && e.get("relevant") == Some("true") && e.get("paths").map(|x| x.contains(&sentinel_s)).unwrap_or(false)
+                }) {
                     alive = true;
+                    upto = from + k;
                     break;
                 }
             }
-            results.push(json!({"triggered": triggered, "alive": alive}));
+            let triggered = {
+                let sh = p.sh.lock().unwrap();
+                let end = if alive { upto } else { sh.events.len() };
+                sh.events[from..end].iter().any(|e| e.ev == "watch_event" && e.get("relevant") == Some("true"))
+            };
+            let delivered = drain(&rx);
+            results.push(json!({"triggered": triggered, "alive": alive && delivered}));
         }
         drop(watcher);
         rec["results"] = json!(results);
